@@ -94,6 +94,18 @@ func reopenMain(seed uint64, nh, maxOps int, dir string) {
 						fmt.Fprintf(w, "W %d %s -> P\n", a, before)
 					} else {
 						fmt.Fprintf(w, "W %d %s -> U\n", a, before)
+						if r.Intn(4) == 0 {
+							// the block is updated in place in the caller's buffer and written again
+							for j := 0; j < len(v); j += 1 + r.Intn(700) {
+								v[j] ^= 0x3c
+							}
+							before2 := enc.RLE(v)
+							if try(func() { d.Write(a, v) }) {
+								fmt.Fprintf(w, "W %d %s -> P\n", a, before2)
+							} else {
+								fmt.Fprintf(w, "W %d %s -> U\n", a, before2)
+							}
+						}
 					}
 				} else {
 					var res []byte
